@@ -88,6 +88,10 @@ pub struct WebCase {
     pub kind: CodeKind,
     pub hybrid: bool,
     pub reqs: Vec<Req>,
+    /// afterwards the problem is deleted and another code is added under the SAME name by the same
+    /// user: nothing of the deleted problem may survive
+    #[serde(default)]
+    pub readd: Option<Box<WebCase>>,
 }
 
 const POLL_LIMIT: Duration = Duration::from_secs(120);
@@ -395,6 +399,61 @@ fn c16_check(c: &WebCase, st: &mut Stats) -> CheckResult {
     let srv = server()?;
     let cl = srv.client();
     let mut jar = Jar::default();
+    let first = run_problem(&cl, &mut jar, c, st)?;
+    if let Some(second) = &c.readd {
+        if jar.cookies.is_empty() {
+            return Ok(first);
+        }
+        // let every task of the first problem finish (a strategy accepted twice in a burst may still run)
+        let t0 = Instant::now();
+        loop {
+            let g = cl.get(&mut jar, "/adf/p")?;
+            if g.status != 200 || g.json()?["running_tasks"].as_array().map(|a| a.is_empty()).unwrap_or(true) {
+                break;
+            }
+            if t0.elapsed() > POLL_LIMIT {
+                return Err("INCONCLUSIVE: tasks of the first problem still running".into());
+            }
+            std::thread::sleep(Duration::from_millis(10));
+        }
+        std::thread::sleep(Duration::from_millis(30));
+        let r = cl.delete(&mut jar, "/adf/p")?;
+        if r.status != 200 {
+            return Err(format!("DELETE /adf/p answered {} {}", r.status, r.text()));
+        }
+        let g = cl.get(&mut jar, "/adf/p")?;
+        if g.status != 404 {
+            return Err(format!("the deleted problem is still served (status {})", g.status));
+        }
+        st.label("deleted_and_added_again_under_the_same_name");
+        let o2 = run_problem(&cl, &mut jar, second, st).map_err(|e| format!("after deleting the problem and adding another code under the same name: {e}"))?;
+        if o2 != Outcome::Ok {
+            return Ok(o2);
+        }
+    }
+    Ok(first)
+}
+
+fn run_problem(cl: &Client, jar_ref: &mut Jar, c: &WebCase, st: &mut Stats) -> CheckResult {
+    let cl = Client { port: cl.port };
+    let mut jar = std::mem::take(jar_ref);
+    let res = run_problem_inner(&cl, &mut jar, c, st);
+    *jar_ref = jar;
+    res
+}
+
+fn run_problem_inner(cl: &Client, jar: &mut Jar, c: &WebCase, st: &mut Stats) -> CheckResult {
+    let cl = Client { port: cl.port };
+    let mut jar_local = std::mem::take(jar);
+    let r = run_problem_body(&cl, &mut jar_local, c, st);
+    *jar = jar_local;
+    r
+}
+
+fn run_problem_body(cl_in: &Client, jar_in: &mut Jar, c: &WebCase, st: &mut Stats) -> CheckResult {
+    let cl = Client { port: cl_in.port };
+    let mut jar = std::mem::take(jar_in);
+    let result = (|| -> CheckResult {
     let (text, decl) = gen::render(&c.adf.acs, &c.adf.labels, &c.adf.layout);
     let hostile = c.adf.labels.iter().any(|l| gen::is_bd_hostile(l));
     let code = match &c.kind {
@@ -608,6 +667,9 @@ fn c16_check(c: &WebCase, st: &mut Stats) -> CheckResult {
         });
     }
     Ok(outcome)
+    })();
+    *jar_in = jar;
+    result
 }
 
 pub fn c16_check_entry(c: &WebCase, st: &mut Stats) -> CheckResult {
@@ -677,6 +739,17 @@ fn web_case() -> BoxedStrategy<WebCase> {
             kind,
             hybrid,
             reqs,
+            readd: None,
+        })
+        .boxed()
+}
+
+/// a quarter of the cases delete the problem afterwards and add a second, different code under the same name
+fn web_case_with_readd() -> BoxedStrategy<WebCase> {
+    (web_case(), proptest::option::weighted(0.25, web_case()))
+        .prop_map(|(mut a, b)| {
+            a.readd = b.map(Box::new);
+            a
         })
         .boxed()
 }
@@ -688,7 +761,7 @@ pub fn c16(tier: Tier) -> PropSpec {
         rule: "the real server binary (built from the current tree) runs against an in-process MongoDB wire-protocol stub; each case = \
                code (well-formed ADF n<=5 with labels of all classes, one tenth 'wide' ADFs with 11..14 statements whose expected answers are the library's own, computed in the harness | grammar-invalid mutant | grammar-valid with an undeclared \
                statement) x parsing Naive/Hybrid x a generated request order over the six strategies with repeated solves, interleaved \
-               GETs and bursts of solve requests sent without waiting (overlapping tasks), by an anonymous (temporary) user. After add and every solve the slot is polled (bounded) and checked: \
+               GETs and bursts of solve requests sent without waiting (overlapping tasks), by an anonymous (temporary) user; a quarter of the cases then delete the problem and add a different code under the same name (nothing of the deleted problem may survive). After add and every solve the slot is polled (bounded) and checked: \
                returned interpretations (root node TOP/BOT/inner per statement) as multiset == definitional answer; every graph: key \
                sets agree, each statement has exactly one root = the listed handle, leaves have no edges, inner nodes exactly one lo \
                and one hi edge, node set == closure of the roots, and following lo/hi edges under every total assignment consistent \
@@ -700,6 +773,6 @@ pub fn c16(tier: Tier) -> PropSpec {
             "'eventually' is bounded polling (40 s); a slot still empty while the task is listed as running is INCONCLUSIVE (exit 2), a slot empty after the task ended is a violation",
         ],
         exhaustive: false,
-        parts: vec![Part::with_shrink("problems", tier.pick(1200, 12000), 60, web_case, c16_check)],
+        parts: vec![Part::with_shrink("problems", tier.pick(1200, 12000), 60, web_case_with_readd, c16_check)],
     }
 }
